@@ -157,6 +157,12 @@ package transport_controller
 // same entry object stays
 //@   cs Controller.bcast ensures old(lnk.GetUUID() in self.links) && old(self.links[lnk.GetUUID()].lnk) == lnk ==> (lnk.GetUUID() in self.links) && self.links[lnk.GetUUID()] == old(self.links[lnk.GetUUID()])
 //@   cs Controller.bcast ensures (lnk.GetUUID() in self.links) && (!old(lnk.GetUUID() in self.links) || self.links[lnk.GetUUID()] != old(self.links[lnk.GetUUID()])) ==> self.links[lnk.GetUUID()].lnk == lnk
+// replacement: a different link registered under the same UUID is flushed (handed to flushEstablishedLink,
+// whose contract closes it and unlists it) and never stays registered; the UUID then holds the new link or nothing
+//@   cs Controller.bcast ensures old(lnk.GetUUID() in self.links) && old(self.links[lnk.GetUUID()].lnk) != lnk && lnk.GetRemotePeer() != old(self.peerID) && old(self.execCtx) != nil ==> called(flushEstablishedLink) && (!(lnk.GetUUID() in self.links) || (self.links[lnk.GetUUID()] != old(self.links[lnk.GetUUID()]) && self.links[lnk.GetUUID()].lnk == lnk))
+// a link that is not registered is never flushed by an establishment report, nor is the reported link itself
+//@   cs Controller.bcast ensures !old(lnk.GetUUID() in self.links) || old(self.links[lnk.GetUUID()].lnk) == lnk ==> !called(flushEstablishedLink)
+//@   assert at call flushEstablishedLink: arg0 == atcall(flushEstablishedLink, h.c.links[luuid]) && arg0.lnk != lnk
 //@   cs Controller.bcast ensures lnk.GetRemotePeer() == old(self.peerID) ==> ((lnk.GetUUID() in self.links) <==> old(lnk.GetUUID() in self.links)) && self.links[lnk.GetUUID()] == old(self.links[lnk.GetUUID()])
 
 // ---- C04: link lookups ----
